@@ -95,7 +95,7 @@ def eval_contract(contract, names, pre_args, post_args, res, max_rows=8, only=No
         defs += [d for d in contract.call_defs(F)]
     ens = [(n_, f_) for n_, f_ in contract.ensures(F)]
     s = z3.Solver()
-    s.set("timeout", 20000)
+    s.set("timeout", 6000)
     for f in facts:
         s.add(f)
     for name, f in reqs:
